@@ -2,3 +2,4 @@ pub mod mserver;
 pub mod proxy;
 pub mod replicas;
 pub mod store;
+pub mod cloud;
